@@ -176,6 +176,15 @@ class Tr:
                 return pre, "(b2z (%s (z2b %s) (z2b %s)))" % ("andb" if op == "&&" else "orb", ta, tb)
             ty = tyclass(ctype(n))
             return self.arith(op, ta, tb, ty, pre, tyclass(ctype(b)))
+        if k == "ConditionalOperator":
+            cpre, c = self.cond(n["inner"][0])
+            pa, ta = self.expr(n["inner"][1])
+            pb, tb = self.expr(n["inner"][2])
+            if pa or pb:
+                raise Unsupported("partial operation inside a conditional expression")
+            return cpre, "(if %s then %s else %s)" % (c, ta, tb)
+        if k == "CXXBoolLiteralExpr":
+            return [], "(%d)" % (1 if n.get("value") else 0)
         if k == "CallExpr":
             callee = n["inner"][0]
             while callee["kind"] in ("ImplicitCastExpr", "ParenExpr"):
